@@ -1,6 +1,7 @@
 #!/usr/bin/env python3
 """seedtool.py verify <worktree> <outdir>   : confirm a seeded change in a scratch worktree and
                                                store it under /verif/seeded/<name>/
+   seedtool.py detect-many <name>...         : each change against its own property's check, one re-setup at the end
    seedtool.py detect <name> [checks...]     : apply /verif/seeded/<name>/patch.diff to /repo, run the
                                                checks, undo; records the outcome in meta.json"""
 import json, os, shutil, subprocess, sys
@@ -58,7 +59,7 @@ def verify(wt, out):
     print(name, "CONFIRMED")
     return True
 
-def detect(name, checks):
+def detect(name, checks, resetup=True):
     dst = os.path.join(V, "seeded", name)
     meta = json.load(open(os.path.join(dst, "meta.json")))
     rc, o = sh("git status --porcelain", "/repo")
@@ -87,7 +88,8 @@ def detect(name, checks):
         for f, s in saved.items():
             open(os.path.join(V, "evidence", f), "w").write(s)
         # the generated tables were made from the patched tree: regenerate them
-        sh("./check --setup", V, timeout=1800)
+        if resetup:
+            sh("./check --setup", V, timeout=1800)
     det = meta.get("detection", {})
     det.update(res)
     meta["detection"] = det
@@ -96,5 +98,12 @@ def detect(name, checks):
 if __name__ == "__main__":
     if sys.argv[1] == "verify":
         verify(sys.argv[2], sys.argv[3])
+    elif sys.argv[1] == "detect-many":
+        # detect-many NAME... : each change against the check of its own property; one re-setup at the end
+        try:
+            for name in sys.argv[2:]:
+                detect(name, [name.split("-")[0]], resetup=False)
+        finally:
+            sh("./check --setup", V, timeout=1800)
     else:
         detect(sys.argv[2], sys.argv[3:])
